@@ -42,6 +42,7 @@ type Op struct {
 
 	FA int    `json:"fa,omitempty"` // C18: fail the FA-th backend call of this request (1-based)
 	FK string `json:"fk,omitempty"` // C18: error kind: generic | notfound | found
+	FN string `json:"fn,omitempty"` // fail the first backend call of this name in the request (generic error)
 	RQ string `json:"rq,omitempty"` // junk appended to the request's raw query (malformed escapes, ';' separators)
 	X  string `json:"x,omitempty"`  // 2FA steps with a recovery code: what the code field holds at the same time (totp | smssess | junk)
 	JM string `json:"jm,omitempty"` // JSON mode: how the encoded body is spoiled (bool | num | null | trunc | array | nested)
@@ -148,7 +149,9 @@ type Step struct {
 	// JarsPre: every browser's session/cookies before the op
 	SessPre []map[string]string
 	CookPre []map[string]string
-	SMSBase int // len of SMS outbox before the op
+	SMSBase int   // len of SMS outbox before the op
+	APIErr  error // what an application-side call (Lock, Unlock) answered
+	HasAPI  bool
 }
 
 // Monitor is a per-property oracle.
@@ -869,7 +872,7 @@ func (m *Machine) Exec(i int, op Op) *Violation {
 		m.W.Jars[b].DelCookie("rm")
 	case "lock":
 		if ka := m.KB.acct(op.A % max(1, len(m.KB.Accts))); ka != nil {
-			_ = m.W.Lock.Lock(context.Background(), ka.PID)
+			s.APIErr, s.HasAPI = m.W.Lock.Lock(context.Background(), ka.PID), true
 			if op.S == "far" && m.W.Store.Peek(ka.PID) != nil {
 				// an operator's ban: a deadline far beyond anything LockDuration produces
 				far := time.Date(2300+op.N%6000, 1, 1, 0, 0, 0, 0, time.UTC)
@@ -914,7 +917,9 @@ func (m *Machine) Exec(i int, op Op) *Violation {
 			m.NSkip++
 			return nil
 		}
-		if op.FA > 0 {
+		if op.FN != "" {
+			req.Fault = harness.FaultPlan{Name: op.FN, Kind: "generic"}
+		} else if op.FA > 0 {
 			req.Fault = harness.FaultPlan{At: op.FA, Kind: op.FK}
 		}
 		if op.JM != "" && req.RawBody == nil {
